@@ -82,6 +82,12 @@ Theorem C20_all_methods_counter_discipline :
 Proof. exact all_data_ok. Qed.
 Print Assumptions C20_all_methods_counter_discipline.
 
+(* a caller removing a node from a stored graph (delete_node) while nobody is inside the store keeps the invariant
+   "every live id is below its counter": ids come from the counter, a gap left by a removal is never reused *)
+Theorem C20_removal_keeps_invariant : forall c s l, Inv s -> Inv (fst (do_act (XRemove c) s l)).
+Proof. exact remove_keeps_Inv. Qed.
+Print Assumptions C20_removal_keeps_invariant.
+
 (* THE interleaving theorem: ANY number of threads, each running ANY programs accepted by the data automaton,
    under ANY schedule: no lock error, live node keys (cell, internal id) pairwise distinct in EVERY reachable
    state (an insertion never lands on a live node: no node lost, no live id handed out twice), and whenever
@@ -182,3 +188,22 @@ Example C20_with_form :
   lock_ok reinit_del_all = false /\ data_ok CGlobal reinit_del_all = false /\
   lock_gen (evs_of (run AllFaults reinit_del_all [])) 0 = 1.
 Proof. exact with_form_example. Qed.
+
+(* an id computed from the size of the graph is rejected by the counter discipline and, after a caller deleted a
+   node, is handed out twice; the regenerated method (id from the counter) hands out a fresh one *)
+Example C20_id_from_size_is_rejected :
+  lock_ok len_blank = true /\ data_ok CArg len_blank = false /\
+  find_bad (dataA CArg) DeclFaults 0 len_blank 8 2 = Some [] /\
+  (let S := run_sched (init [flatten DeclFaults [imp2; rm1; mkCall len_blank 1 0 []]]) (repeat 0%nat 60) in
+   map nkey (nodes (sh S)) = [(1, 2); (1, 2)] /\ map (fun t => rets (snd t)) (thr S) = [[2]]) /\
+  (let S := run_sched (init [flatten DeclFaults [imp2; rm1; mkCall (lookup_m disjoint_methods "add_blank_node_to_graph") 1 0 []]]) (repeat 0%nat 60) in
+   map nkey (nodes (sh S)) = [(1, 3); (1, 2)] /\ map (fun t => rets (snd t)) (thr S) = [[3]]).
+Proof. exact id_from_size_example. Qed.
+
+(* acquire(timeout=..) with the result ignored is rejected (witness: the timed-out path); checked, it is accepted *)
+Example C20_acquire_timeout :
+  lock_ok acq_ignored = false /\ find_bad lockA AllFaults 0 acq_ignored 6 2 = Some [true] /\
+  data_ok CGlobal acq_ignored = false /\
+  lock_ok acq_checked = true /\ data_ok CGlobal acq_checked = true /\
+  out_of (run AllFaults acq_checked [true]) = ORaise /\ count_acq (evs_of (run AllFaults acq_checked [true])) = 0%nat.
+Proof. exact acquire_timeout_example. Qed.
